@@ -293,6 +293,64 @@ def _builtin_conds(tier, seed):
     return out
 
 
+def body_catch_random(kind, backing, n, epochs, x0, x1, x2, x3, r0, r1, r2, r3, *sel):
+    """catch() above a per-epoch reshuffle, iterated again and again on the same object: in every epoch exactly the examples that raise a
+    listed type are dropped - in that epoch's order, which a twin pipeline without failures and with an equally seeded generator defines.
+    Nothing learnt in one epoch (which positions failed) may leak into the next; value and key iteration select the same examples."""
+    xs = rt.mk(n, [x0, x1, x2, x3])
+    rs = rt.mk(n, [r0, r1, r2, r3])
+    for r in rs:
+        rt.assume(0 <= r)
+        rt.assume(r <= 2)
+    keys = rt.KEYS[:n]
+
+    def mk():
+        if backing == 'dict':
+            return DictDataset({k: (x, r, k) for k, x, r in zip(keys, xs, rs)})
+        return ListDataset([(x, r, k) for k, x, r in zip(keys, xs, rs)])
+
+    def f(ex):
+        x, r, k = ex
+        if r == 1:
+            raise E1(x)
+        if r == 2:
+            raise E2(x)
+        return (x, k)
+    rng_a, rng_b = rt.Rng(sel=list(sel)), rt.Rng(sel=list(sel))
+    if kind == 'reshuffle_map':
+        ds = mk().shuffle(True, rng=rng_a).map(f).catch(E1)
+        twin = mk().shuffle(True, rng=rng_b)
+    elif kind == 'map_reshuffle':
+        ds = mk().map(f).shuffle(True, rng=rng_a).catch(E1)
+        twin = mk().shuffle(True, rng=rng_b)
+    else:   # 'reshuffle_map_map'
+        ds = mk().shuffle(True, rng=rng_a).map(f).map(lambda v: v).catch(E1)
+        twin = mk().shuffle(True, rng=rng_b)
+    with_key = backing == 'dict'
+    for _ in range(epochs):
+        order = list(twin)
+        exp, err = [], None
+        for (x, r, k) in order:
+            if r == 1:
+                continue
+            if r == 2:
+                err = x
+                break
+            exp.append((k, (x, k)) if with_key else (x, k))
+        got = []
+        try:
+            for v in (ds.items() if with_key else ds):
+                got.append(v)
+        except E2 as e:
+            if err is None or got != exp or e.args[0] != err:
+                return False
+            continue
+        if err is not None or got != exp:
+            return False
+    rt.reached()
+    return True
+
+
 def body_filter_equiv(backing, n, x0, x1, x2, x3, t):
     """lazy filter, eager filter and FilterException under catch() select the same examples"""
     xs = rt.mk(n, [x0, x1, x2, x3])
@@ -355,6 +413,11 @@ FAMILIES = [
     Family('catch_builtin', body_catch_builtin, ['base', 'struct', 'backing', 'sel', 'n', 'split'], XR, _builtin_conds, timeout=dict(quick=90, thorough=300),
            desc='failures from the families of builtin exception types the library catches internally (IndexError, KeyError, TypeError, ...) '
                 'below concatenation / tiling / index list / intersperse: exactly the listed ones are dropped, value and key iteration'),
+    Family('catch_random', body_catch_random, ['kind', 'backing', 'n', 'epochs'], XR + [(f's{i}', 'int') for i in range(9)],
+           lambda tier, seed: [(k, b, n, e) for k in ('reshuffle_map', 'map_reshuffle', 'reshuffle_map_map') for b in ('list', 'dict') for n in (1, 2, 3)
+                               for e in (2, 3) if n * e <= (4 if tier == 'quick' else 6)],
+           timeout=dict(quick=150, thorough=900), desc='catch() above a per-epoch reshuffle, several epochs on one object: each epoch drops exactly its failing examples, '
+           'in the order an equally seeded failure-free twin defines; value and key iteration'),
     Family('filter_equiv', body_filter_equiv, ['backing', 'n'], [(f'x{i}', 'int') for i in range(4)] + [('t', 'int')],
            lambda tier, seed: [(b, n) for b in ('list', 'dict') for n in range(0, (4 if tier == 'quick' else 5))], timeout=dict(quick=60, thorough=300),
            desc='lazy filter == eager filter == FilterException under catch()'),
